@@ -42,7 +42,7 @@ TYPES = {"plain": needs, "component": plugins.component, "datasource": plugins.d
          "parser": plugins.parser, "combiner": plugins.combiner, "rule": plugins.rule,
          "condition": plugins.condition}
 POSITIONAL = ("plain", "component", "combiner", "rule", "condition")
-FAULTS = ("skip", "content", "cpe", "timeout", "error", "uneq")
+FAULTS = ("skip", "content", "cpe", "timeout", "error", "uneq", "badstr", "blacklisted")
 
 
 class UnEq(Exception):
@@ -52,7 +52,19 @@ class UnEq(Exception):
         return isinstance(other, UnEq) and self.args == other.args
 
 
+class BadStr(Exception):
+    """An exception whose __str__ itself raises (logging / traceback formatting must cope)."""
+
+    def __str__(self):
+        raise RuntimeError("__str__ failed")
+
+
 def make_exc(kind, name):
+    if kind == "badstr":
+        return BadStr("badstr %s" % name)
+    if kind == "blacklisted":
+        from insights.core.exceptions import BlacklistedSpec
+        return BlacklistedSpec("blacklisted %s" % name)
     if kind == "skip":
         return SkipComponent("skip %s" % name)
     if kind == "content":
